@@ -9,7 +9,7 @@ NOT_YET = {
     "C04": ["uniqueness-in-length-class / shortest-encoding stated on the decoder for chained, chained-simple and the split families (tagged has tagged_canonical); Elias gamma/delta bit definitions (carried with the Elias model under C02)"],
     "C02": ["group, dictionary, Elias gamma/delta, BP128 (4 forms), PFOR round trips; RLE-with-header; FOR block reader, RLE/PFOR/group random access: model = code on the correspondence stream and the monitors check the implementation, theorem not yet written"],
     "C03": ["group/dict exactness, Elias, BP128, PFOR, adaptive, float bounds: monitors + correspondence only so far"],
-    "C13": ["group, dict, RLE-with-header, Elias, BP128, adaptive capacity theorems: monitors + correspondence only so far"],
+    "C13": ["group, RLE-with-header, BP128, PFOR, adaptive capacity theorems: monitors + correspondence only so far (FOR, RLE, dictionary DecodeInto and both Elias decoders are proved)"],
     "C16": ["PFOR, group, Elias, BP128, adaptive, float metadata: monitors + correspondence only so far"],
     "C05": [],
     "C11": [],
@@ -19,14 +19,13 @@ NOT_YET = {
             "binary: carried by the perturbed correspondence runs and memcheck, not by a theorem (property is PARTIAL)"],
     "C18": ["crash- and leak-freedom (facts about the binary: observed by the sweep, not theorems); the stateless codecs are "
             "carried only as request-count tables tied by the correspondence (abortAll_spec), their value-level result under "
-            "refusal is 'failure or the undisturbed result' by observation; members-list = bit set (C08 set algebra) is not proved, "
-            "so or_spec / from_members_spec speak about the list the C iterates"],
+            "refusal is 'failure or the undisturbed result' by observation; (or/and/xor/andNot are now exact: *_exact)"],
     "C14": ["termination is by construction (the models are total functions whose loops are bounded by explicit fuel = input size); "
             "that the fuel of runCountAux suffices is tied by the correspondence, not proved"],
     "C06": ["losslessness of the PFOR, DICT and BITMAP arms (their codecs have no round-trip theorem yet) and hence the unconditional adaptive_roundtrip"],
     "C07": ["array-level framing round trip (decode (encode ds) = map roundTripOne ds) is not a theorem: encode bytes are compared with the model and the decoded values are checked on the implementation"],
     "C10": ["bit cells (set/clear/toggle) as theorems: model + monitors + correspondence only; half-float cells not covered (F16C-only code)"],
-    "C08": ["set algebra (or/and/xor/andnot), add-range fast path (single run on an empty set), clone and serialise/deserialise, ascending duplicate-free iteration (`members`) as theorems; the three containers are abstracted to one bit set in the model (their equivalence with the C is sampled by the histories)"],
+    "C08": ["add-range fast path (single run on an empty set), clone and serialise/deserialise as theorems; that iteration is ascending and duplicate free (membership of `members` IS proved, and the four set operations are); the three containers are abstracted to one bit set in the model (their equivalence with the C is sampled by the histories)"],
     "C09": ["sorted insert / positional insert / delete / delete-member as refinement of a reference multiset (the shifting loops): checked by the harness against a reference array and by the correspondence, theorem not yet written; get/set isolation, lower-bound search, incr/half are proved"],
     "C12": [],
 }
